@@ -379,6 +379,8 @@ func render(res []*result) string {
 
 func main() {
 	c := lib.New("C05", "model_checking", 170*time.Second, 25*time.Minute)
+	// library goroutines that take part in the workload-thread phase: syncer, value-appending precommit goroutines and indexers
+	vsched.WorkDaemons = []string{"store.OpenWith", "(*ImmuStore).precommit", "(*ImmuStore).preCommitWith", "store.(*indexer)"}
 	c.Assume("code between two synchronisation operations is data-race free")
 	c.Assume("default (safe) MVCC mode; single default index")
 	base := func() *store.Options { return storeh.SmallOptions() }
